@@ -10,7 +10,8 @@ _caches = None
 
 
 def clear_caches():
-    """cache_clear() on every class-level lru_cache of the loaders (process-global state)."""
+    """Process-wide state of the library back to import time: cache_clear() on every functools cache of
+    the loaders, containers / scalars / lazily created attributes of its modules and classes reset."""
     global _caches
     if _caches is None:
         _caches = []
@@ -21,6 +22,7 @@ def clear_caches():
                     _caches.append(a)
     for c in _caches:
         c.cache_clear()
+    env.reset_library_state()
 
 
 def cache_infos():
